@@ -4,7 +4,7 @@
 import json, os, shutil, subprocess, sys, time
 ROOT = '/verif'
 only = sys.argv[1:]
-res_path = ROOT + '/seeded/RESULTS.json'
+res_path = os.environ.get('SEED_RESULTS', ROOT + '/seeded/RESULTS.json')
 results = json.load(open(res_path)) if os.path.exists(res_path) else {}
 for d in sorted(os.listdir(ROOT + '/seeded')):
     p = ROOT + '/seeded/' + d
